@@ -692,11 +692,24 @@ func TestC02(t *testing.T) {
 			// every broker PUBLISH must appear (matched by payload, QoS, retain; the
 			// order across different topics is not fixed by the property)
 			used := make([]bool, len(got))
+			// several broker publishes of one script may look alike (same payload, QoS, retain) on
+			// different topics: a delivery is then attributed to the one whose topic it resolves to
+			sig := func(m mqttref.Pkt) string { return fmt.Sprintf("%x/%d/%v", m.Payload, m.QoS, m.Retain) }
+			alike := map[string]map[string]bool{}
+			for _, w := range wants {
+				if alike[sig(w.m)] == nil {
+					alike[sig(w.m)] = map[string]bool{}
+				}
+				alike[sig(w.m)][w.m.Topic] = true
+			}
 			for _, w := range wants {
 				tn := w.m.Topic
 				gi := -1
 				for j := range got {
 					if !used[j] && bytes.Equal(got[j].p.Data, w.m.Payload) && got[j].p.QoS == w.m.QoS && got[j].p.Retain == w.m.Retain {
+						if len(alike[sig(w.m)]) > 1 && got[j].res != tn && alike[sig(w.m)][got[j].res] {
+							continue // this is the look-alike's delivery
+						}
 						// prefer the candidate that resolves to the right name
 						if gi < 0 || (got[gi].res != tn && got[j].res == tn) {
 							gi = j
